@@ -9,7 +9,9 @@ CLASS_LAYER = [PA + 'Pauli.__matmul__#Pauli', PA + 'Pauli.__neg__', PA + 'Pauli.
                ST + 'StabilizerState.expect#list', ST + 'identity_map']
 
 # every kernel that currently has a discharged contract (their frame.* obligations are the C17 frame conditions)
-KERNELS = [U + f for f in ('acq', 'ipow', 'p0', 'ps0', 'acq_mat', 'pauli_tokenize', 'pauli_combine', 'pauli_transform',
+MEASURE_LEMMAS = ['acq_bilinear', 'acq_antisym', 'ipow_parity', 'ordg_bits', 'acq_zero', 'ordg_acq', 'selacq_gram', 'acqsum_ext',
+                  'ipowsum_ext', 'symplectic_complete']
+KERNELS = [U + f for f in ('stabilizer_measure', 'stabilizer_project', 'stabilizer_postselection', 'acq', 'ipow', 'p0', 'ps0', 'acq_mat', 'pauli_tokenize', 'pauli_combine', 'pauli_transform',
                            'clifford_rotate', 'clifford_rotate_signless', 'map_to_state', 'state_to_map', 'front',
                            'pauli_is_onsite', 'stabilizer_expect')]
 
@@ -53,7 +55,8 @@ def C04(run):
 
 
 def C05(run):
-    run.deductive(keys=[U + 'map_to_state', U + 'clifford_rotate', ST + 'CliffordMap.to_state#r', ST + 'CliffordMap.to_state#none', ST + 'StabilizerState.copy'], lemmas=[])
+    run.deductive(keys=[U + 'stabilizer_measure', U + 'stabilizer_project', U + 'map_to_state', U + 'clifford_rotate', ST + 'CliffordMap.to_state#r',
+                        ST + 'CliffordMap.to_state#none', ST + 'StabilizerState.copy'], lemmas=MEASURE_LEMMAS)
     run.bounded_check('c05_histories', _b().c05_histories, Nmax=3, walks=q(run, 45, 400), steps=q(run, 10, 25))
     run.bounded_check('c06_measure', _b().c06_measure, Nmax=2, count=q(run, 25, 200), reps=q(run, 2, 4))
     return 'other', ('bounded: random histories from every constructor with the tableau invariant and dense validity checked after every '
@@ -62,7 +65,7 @@ def C05(run):
 
 
 def C06(run):
-    run.deductive(keys=[U + 'stabilizer_expect'], lemmas=[])
+    run.deductive(keys=[U + 'stabilizer_measure', U + 'stabilizer_expect'], lemmas=MEASURE_LEMMAS)
     run.bounded_check('c06_measure', _b().c06_measure, Nmax=q(run, 2, 3), count=q(run, 40, 150), reps=q(run, 3, 5))
     return 'other', ('bounded: Born rule, joint log2-probability, projection postulate and repeatability against dense matrices: all '
                      'tableaux/ranks/signed observables for N=1, random tableaux x all ranks x commuting lists beyond')
@@ -98,7 +101,7 @@ def C11(run):
 
 
 def C12(run):
-    run.deductive(keys=[U + 'map_to_state', U + 'state_to_map', ST + 'CliffordMap.to_state#r', ST + 'CliffordMap.to_state#none', ST + 'StabilizerState.to_map', ST + 'identity_map'], lemmas=[])
+    run.deductive(keys=[U + 'map_to_state', U + 'state_to_map', ST + 'CliffordMap.to_state#r', ST + 'CliffordMap.to_state#none', ST + 'StabilizerState.to_map', ST + 'identity_map', U + 'stabilizer_project'], lemmas=['acq_bilinear', 'acq_antisym'])
     run.bounded_check('c12_states', _b().c12_states, Nmax=q(run, 3, 3), count=q(run, 20, 80))
     return 'other', ('deductive (all N): map_to_state / state_to_map are the exact row and phase permutations (Z-images -> stabilizers, '
                      'X-images -> destabilizers); bounded: constructors, to_state/to_map round trip, to_qutip, stabilizer_state against dense matrices')
@@ -111,6 +114,7 @@ def C13(run):
 
 
 def C14(run):
+    run.deductive(keys=[U + 'stabilizer_measure', U + 'stabilizer_postselection'], lemmas=MEASURE_LEMMAS)
     run.bounded_check('c14_trajectory', _b().c14_trajectory, Nmax=3, programs=q(run, 40, 250))
     return 'other', ('bounded: measurement layers and circuits with mid-circuit measurements against the dense trajectory in program order, '
                      'backward = adjoint of the recorded trajectory, impossible records rejected, post-selection of all signed strings')
@@ -128,7 +132,7 @@ def C16(run):
 
 
 def C17(run):
-    run.deductive(keys=KERNELS + CLASS_LAYER, lemmas=['ipowsum_ext', 'acq_is_anticount'])
+    run.deductive(keys=KERNELS + CLASS_LAYER, lemmas=['acq_is_anticount'] + MEASURE_LEMMAS)
     run.bounded_check('c17_copies', _b().c17_copies, Nmax=3, rounds=q(run, 20, 120))
     return 'other', ('deductive (all N): the frame condition (modifies clause) of every kernel under contract: arguments not listed are '
                      'unchanged, results are fresh or exactly the in-place arguments; bounded: copy of every object kind, query methods with '
